@@ -662,7 +662,7 @@ def expected_enum_arms(item, kind, fallible, cp):
     for v in item.members:
         spec = v.spec
         own_shape = v.shape
-        hint = spec['hint']
+        hint = spec['hints'].get(cp) if spec.get('hints') else spec['hint']      # dedicated to this counterpart, else the default one
         cshape = {'as {}': 'named', 'as ()': 'tuple', 'as Unit': 'unit'}.get(hint, own_shape)
         # variant-level instruction in effect
         w = member_winner(v.attrs, kind, fallible, cp)
